@@ -77,7 +77,7 @@ fn meta(prop: &str) -> (&'static str, Vec<&'static str>, serde_json::Value) {
                 "a literal is always valid UTF-8 (images are converted lossily); invalid UTF-8 reaches the compiler only through file delivery",
                 "non-termination is detected by a CPU-time budget per image (RLIMIT_CPU re-armed before each image): 60 s + 1200 s * (n/100 KB)^2 against a typical 1-200 ms; the quadratic term exists because the lexer's block-comment scanner is quadratic in the length of an unterminated comment (about 100 s for 95 KB), which is slow but terminates and is therefore not a violation; images are cut at 48 KB (quick) / 160 KB (thorough)",
             ],
-            serde_json::json!({"components": components, "rule": "a case = (valid base source, storage-fault image, delivery, backend): bases are the 892 corpus files (walked systematically), generated module sets and (one run in eight) hand-written bases from dsim/samples (notation, notation 2, cycles, 42 rejected-notation inputs, 68 boundary-literal inputs); images are truncations (biased to the last bytes), single-bit flips, 512-byte sector zero-fill/duplication/swap and splices; delivered as a literal or as a file read through the simulated disk (truncation/flip/zero-fill applied by the seam to the bytes in flight); both backends; every error and warning rendered with Display and contextualize. distinct = distinct (base hash, image, delivery); non-trivial = the image differs from the base"}),
+            serde_json::json!({"components": components, "rule": "a case = (valid base source, storage-fault image, delivery, backend): bases are the 892 corpus files (walked systematically), generated module sets and (one run in eight) hand-written bases from dsim/samples (notation, notation 2, cycles, 42 rejected-notation inputs, 68 boundary-literal inputs); images are truncations (biased to the last bytes), single-bit flips, 512-byte sector zero-fill/duplication/swap and splices; delivered as a literal or as a file read through the simulated disk (truncation/flip/zero-fill applied by the seam to the bytes in flight); both backends (the rasn backend with a random RasnConfig in half of the runs); every error and warning rendered with Display and contextualize. distinct = distinct (base hash, image, delivery); non-trivial = the image differs from the base"}),
         ),
         "C12" => (
             "exploration",
@@ -98,9 +98,10 @@ fn meta(prop: &str) -> (&'static str, Vec<&'static str>, serde_json::Value) {
                 "a comment is not a token: the lower bound is the first byte of the malformed unit's own first token",
                 "two-byte corruptions (comma blanked + later damage): the upper bound is the identifier that follows the lost comma; when the later damage sits inside a DEFAULT value the unchanged tree reports it there (known finding lenient-comma-then-damaged-default, identified by that context)",
                 "histories: the earlier compilations of a thread are not judged themselves; a panic in one of them makes the case inconclusive",
+                "preludes: a hand-written module placed in front of the corrupted text in the same source is used only when it compiles on its own (probed in the same child); all offsets of the oracle are shifted by its length",
                 "when contextualize flags no line at all (the failing line is blank) only Display, the contextualize header and the structured line are compared",
             ],
-            serde_json::json!({"components": components, "rule": "a case = (generated source of 1..3 modules with LF/CRLF and comments, corruption, delivery, backend): small sources (<= 4 assignments per module) are swept exhaustively over every strict byte position, larger ones sampled; every unit (header, assignment, END) is also hit at its first and last strict byte; plus sector zero-fills, truncations inside assignments and at unit boundaries, damaged comment terminators, two-byte corruptions, and (one case in twenty-five) a history of up to 140 earlier compilations on the same thread; delivered as a literal or as a file whose bytes the seam corrupts in flight. distinct = distinct (source hash, corruption, delivery, backend); non-trivial = the compiler returned a syntax error and all five clauses were evaluated"}),
+            serde_json::json!({"components": components, "rule": "a case = (generated source of 1..3 modules with LF/CRLF and comments, corruption, delivery, backend): small sources (<= 4 assignments per module) are swept exhaustively over every strict byte position, larger ones sampled; every unit (header, assignment, END) is also hit at its first and last strict byte; plus sector zero-fills, truncations inside assignments and at unit boundaries, damaged comment terminators, two-byte corruptions, (one case in twenty-five) a history of up to 140 earlier compilations on the same thread, and (one literal case in twenty) a hand-written module of other notation in front of the corrupted text in the same source; delivered as a literal or as a file whose bytes the seam corrupts in flight. distinct = distinct (source hash, corruption, delivery, backend); non-trivial = the compiler returned a syntax error and all five clauses were evaluated"}),
         ),
         "C10" => (
             "exploration",
@@ -121,7 +122,7 @@ fn meta(prop: &str) -> (&'static str, Vec<&'static str>, serde_json::Value) {
                 "rustfmt is made unreachable (sanitised CARGO_HOME/CARGO) so that formatting is not an environmental variable — except in scenario formatter, where the stand-in (a STUB) is reachable in a mode that is a pure function of its input, for the reference process as well",
                 "multi-file corpus sets are combined only when an over-approximate token scan finds their names disjoint (finding F1: bare-name collisions)",
             ],
-            serde_json::json!({"components": components, "rule": "a case = one simulated run: 1..16 caller threads x histories of 1..8 compile_to_string() operations over generated module sets, their siblings (same names, other bodies/defaults) and corpus files, each operation in a random arrangement (assignment permutation per module, module order, regrouping of modules into sources), literal or file delivery with benign read faults, random RasnConfig, seeded hash keys, scheduler strategy random/PCT/run-to-completion. distinct = distinct (plan signature, schedule signature) pairs; non-trivial = at least one operation was compared byte-for-byte against an Ok reference"}),
+            serde_json::json!({"components": components, "rule": "a case = one simulated run: 1..16 caller threads x histories of 1..8 compile_to_string() operations over generated module sets, their siblings (same names, other bodies/defaults) and corpus files, each operation in a random arrangement (assignment permutation per module, module order, regrouping of modules into sources), literal or file delivery with benign read faults, one operation in five as compile() into a file path the thread reuses (the file content is compared), random RasnConfig, seeded hash keys, scheduler strategy random/PCT/run-to-completion. distinct = distinct (plan signature, schedule signature) pairs; non-trivial = at least one operation was compared byte-for-byte against an Ok reference"}),
         ),
         _ => ("exploration", vec![], serde_json::json!({"components": components, "rule": ""})),
     }
